@@ -67,6 +67,15 @@ class Interp:
                     if t["dest"]["l"] == 0 and not t["dest"]["p"] and t["callee"] != "std::ops::FromResidual::from_residual":
                         arm.tail.append((x, t))
                 for s in b.blocks[x]["stmts"]:
+                    # `let out = call(..); out`: the call's result is moved into the return place unchanged
+                    if s["k"] == "assign" and s["place"]["l"] == 0 and not s["place"]["p"] and s["rv"]["k"] == "use":
+                        for tm in self.o.of_operand(s["rv"]["op"]):
+                            if tm[0] == "call" and tm[3] in blocks and b.blocks[tm[3]]["term"].get("k") == "call" and \
+                                    b.blocks[tm[3]]["term"]["callee"] == tm[1]:
+                                if (tm[3], b.blocks[tm[3]]["term"]) not in arm.tail:
+                                    arm.tail.append((tm[3], b.blocks[tm[3]]["term"]))
+                            else:
+                                arm.tail.append((x, {"callee": "?" + fmt_terms([tm]), "args": [], "dest": s["place"]}))
                     if s["k"] == "assign" and s["place"]["l"] == 0 and not s["place"]["p"] and s["rv"]["k"] == "agg" and \
                             s["rv"].get("adt") == "std::result::Result" and s["rv"]["variant"] == "Ok":
                         arm.oks.append((x, self.o.of_operand(s["rv"]["ops"][0])))
